@@ -252,6 +252,13 @@ def main(pid, tier, seed):
             failing = list(v[1]) if isinstance(v[1], (tuple, list)) else [v[1]]
             verdict.violation(dict(m, clause='+'.join(failing), failing=failing, check='%s %s' % (m.get('reader'), m.get('encoding'))),
                               'clauses %s; %s' % (failing, core.short(m, 300)))
+    def corrupt(t):
+        if t['kind'] == 'file' and len(t['got']) >= 2:
+            t['got'] = t['got'][:-1]                 # a loader that lost one record
+            return t
+        return None
+    accepted = [t for t in traces if verdicts[t['tid']][0] == 'ACCEPT']
+    selftest = core.binding_selftest('TrLine.tla', accepted, corrupt)
     verdict.matcher('C07-F9a-paragraph-separator', lambda w: w.get('lost_chars') == ['U+2029'] and w.get('reader') in ('G', 'S', 'OG'))
     verdict.matcher('C07-F10-omen-scorer-encoding', lambda w: w.get('reader') == 'OS' and w.get('encoding') != 'utf-8')
     rc, n_viol, n_known = verdict.finish()
@@ -264,7 +271,7 @@ def main(pid, tier, seed):
            'rule': 'one trace = one rule file of one real training (accepted special characters of every class in every position, '
                    'per encoding) as one real loader read it, against the LF-only neutral reading; plus config.ini lists',
            'code_points_classified': 0x110000, 'representatives_probed': sum(len(v) for v in reps.values()),
-           'trainings': n_train, 'trace_validation': st, 'exhaustive': False,
+           'trainings': n_train, 'trace_validation': st, 'exhaustive': False, 'binding_selftest': selftest,
            'known_findings_reproduced': n_known, 'violation_histogram': verdict.histogram()}
     core.write_evidence(pid, tier, seed, 'model_checking', cov, time.time() - t0, violations=n_viol,
                         assumptions=['TLC', 'class partition computed from str.splitlines / str.isspace over all code points; '
